@@ -83,14 +83,15 @@ def temporal_dag(G, u, v=None, start=None, end=None):
     # creating empty DAG
     DG = nx.DiGraph()
     DG.add_node(u)
-    active = {u: None}
+    # occurrence name "node_time" -> node; the bare root is kept apart (its id may itself read like an occurrence)
+    active = {}
     sources, targets = {}, {}
 
     for tid in ids:
         to_remove = []
-        to_add = []
-        for an in active:
-            neighbors = {f"{n}_{tid}": None for n in G.neighbors(node_type(str(an).split("_")[0]), tid)}
+        to_add = {}
+        for an, node in [(None, u)] + list(active.items()):
+            neighbors = {f"{n}_{tid}": n for n in G.neighbors(node, tid)}
             if v is not None:
                 if f"{v}_{tid}" in neighbors:
                     targets[f"{v}_{tid}"] = None
@@ -98,20 +99,19 @@ def temporal_dag(G, u, v=None, start=None, end=None):
                 for k in neighbors:
                     targets[k] = None
 
-            if len(neighbors) == 0 and an != u:
+            if len(neighbors) == 0 and an is not None:
                 to_remove.append(an)
 
-            for n in neighbors:
-                if isinstance(an, node_type):
-                    if not isinstance(an, str) or (isinstance(an, str) and '_' not in an):
-                        an = f"{an}_{tid}"
-                        sources[an] = None
+            if an is None and len(neighbors) > 0:
+                an = f"{u}_{tid}"
+                sources[an] = None
 
+            for n in neighbors:
                 DG.add_edge(an, n)
-                to_add.append(n)
+                to_add[n] = neighbors[n]
 
         for n in to_add:
-            active[n] = None
+            active[n] = to_add[n]
 
         for rm in to_remove:
             del active[rm]
